@@ -1,6 +1,6 @@
 """BCP socket client."""
 import json
-from urllib.parse import urlsplit, parse_qs, quote, unquote, urlunparse
+from urllib.parse import urlsplit, quote, unquote, urlunparse
 
 import asyncio
 
@@ -47,30 +47,30 @@ def decode_command_string(bcp_string) -> Tuple[str, dict]:
         kwargs = json.loads(bcp_command.query[5:])
         return bcp_command.path, kwargs
 
-    try:
-        kwargs = parse_qs(bcp_command.query, keep_blank_values=True)
-    except AttributeError:
-        kwargs = dict()
+    # Look at the values as they are on the wire: the encoder quotes strings completely, so only typed
+    # values carry an unquoted "type:" prefix and every value has to be unquoted exactly once.
+    kwargs = dict()
+    for name_value in bcp_command.query.split('&'):
+        if not name_value:
+            continue
+        k, _, v = name_value.partition('=')
+        k = unquote(k.replace('+', ' '))
+        if k in kwargs:
+            continue
+        if v.startswith('int:'):
+            kwargs[k] = int(unquote(v[4:]))
+        elif v.startswith('float:'):
+            kwargs[k] = float(unquote(v[6:]))
+        elif v.lower() == 'bool:true':
+            kwargs[k] = True
+        elif v.lower() == 'bool:false':
+            kwargs[k] = False
+        elif v == 'NoneType:':
+            kwargs[k] = None
+        else:
+            kwargs[k] = unquote(v.replace('+', ' '))
 
-    for k, v in kwargs.items():
-        if isinstance(v[0], str):
-            if v[0].startswith('int:'):
-                v[0] = int(v[0][4:])
-            elif v[0].startswith('float:'):
-                v[0] = float(v[0][6:])
-            elif v[0].lower() == 'bool:true':
-                v[0] = True
-            elif v[0].lower() == 'bool:false':
-                v[0] = False
-            elif v[0] == 'NoneType:':
-                v[0] = None
-            else:
-                v[0] = unquote(v[0])
-
-            kwargs[k] = v
-
-    return (bcp_command.path,
-            dict((k, v[0]) for k, v in kwargs.items()))
+    return bcp_command.path, kwargs
 
 
 def encode_command_string(bcp_command, **kwargs) -> str:
